@@ -74,6 +74,8 @@ std::unique_ptr<NodeResult> AssignNode::evaluate(PSC::Context &ctx) {
         assignArray(ctx, e);
         return std::make_unique<NodeResult>(nullptr, PSC::DataType::NONE);
     }
+    if (valueRes->type == PSC::DataType::NONE)
+        throw PSC::RuntimeError(token, ctx, "Expected a value for assignment");
 
     PSC::Variable *var;
     try {
